@@ -400,7 +400,8 @@ def run_c07(ctx):
         run_miri(ctx, d, "miri-sb", pid, SB, 6, 25, miri_modules(manifest, 24), extra=["--no-serde", "--caps", "0"])
     else:
         run_asan(ctx, d, "asan-release", pid, 1500, 40, release=True)
-        run_miri(ctx, d, "miri-sb", pid, SB, 12, 40, None, extra=["--no-serde"])
+        run_miri(ctx, d, "miri-sb", pid, SB, 10, 40, None, extra=["--no-serde", "--caps", "0"])
+        run_miri(ctx, d, "miri-sb-larger-capacities", pid, SB, 4, 30, miri_modules(manifest, 24), extra=["--no-serde", "--no-sweeps", "--caps", "1,8"])
         run_miri(ctx, d, "miri-tb", pid, TB, 6, 30, miri_modules(manifest, 40), extra=["--no-serde", "--caps", "0"])
         run_miri(ctx, d, "miri-serde", pid, "", 4, 30, [m["module"] for m in manifest["modules"] if m["status"] == "emitted" and "serde" in m.get("fragments", "")][:24], extra=["--caps", "0"])
         run_valgrind(ctx, binaries[("release", False)], "memcheck", pid, 150, 40)
